@@ -16,7 +16,12 @@ PROP = {
                   "long histories, ms-granular advances. TestVFC12Sessions: login / use / logout / advance / restart "
                   "(close + reopen of sessions.db) histories with generated TTL; envelope oracle: a token must "
                   "authenticate while not logged out and younger than the TTL, must not when logged out, never issued "
-                  "or unused for >= TTL; in between (daily refresh granularity) either.",
+                  "or unused for >= TTL; in between (daily refresh granularity) either. Login attempts carry forged "
+                  "X-Real-IP / X-Forwarded-For / CF-Connecting-IP / True-Client-IP headers naming trusted-proxy addresses "
+                  "(the default trusted proxies are configured): throttling stays per TCP peer. TestVFC12LogoutRace: "
+                  "requests using a cookie race with its logout (through the mux and with the handler invoked directly) "
+                  "while the stored expiry is a day stale (refresh-store path); after logout and restart the token must "
+                  "not authenticate.",
     "level_note": "Time is advanced by moving stored instants back (limiter records, session expiries incl. the bbolt "
                   "records). Clock advances are kept >= 3 s (HTTP) / 1 ms (explicit clock) away from record boundaries "
                   "because the statement does not decide the boundary instant. bcrypt uses minimum-cost hashes.",
